@@ -208,6 +208,9 @@ func (tc *typeCtx) exec(kind string, b []byte) opRes {
 			tc.noBig = true
 		}
 	}
+	if kind == "nest-deep" && r.verdict != "err depth" {
+		v = append(v, "a recursion nested deeper than the decoders' depth limit (msgp AllowableDepth, protocol/codec.go: 255) was not stopped by msgp.ErrMaxDepthExceeded: "+r.verdict)
+	}
 	if r.el > 120*time.Second {
 		v = append(v, fmt.Sprintf("one decode took %v", r.el))
 	}
@@ -568,13 +571,70 @@ func (g *gen) nesting(t reflect.Type) {
 		g.emit("nest-map", append(repeatSeq([]byte{0x81, 0xa1, 'a'}, d), 0xc0))
 		g.emit("nest-arrhdr", repeat(0xdd, d))
 	}
-	if t.Kind() == reflect.Struct {
+	// the recursion of the message schema (SignedTxnWithAD -> ApplyData -> EvalDelta -> InnerTxns -> SignedTxnWithAD): every type
+	// that reaches a self-referential struct gets that cycle nested around and beyond the depth limit of the decoders
+	if prefix, cyc := findRecursion(t, nil, map[reflect.Type]bool{}, 0); cyc != nil {
+		pre := nestBytes(prefix, 1)
+		pre = pre[:len(pre)-1] // without the closing empty map
+		for _, d := range []int{1, 5, 40, 100} {
+			g.emit("nest-cycle", append(append([]byte{}, pre...), nestBytes(cyc, d)...))
+		}
+		deepLevels := []int{260, 300, 2000}
+		if vh.Thorough() {
+			deepLevels = append(deepLevels, 20000)
+		}
+		for _, d := range deepLevels {
+			// every level of the cycle enters at least one generated decoder: more than AllowableDepth (255) levels must end in
+			// msgp.ErrMaxDepthExceeded (monitor in exec)
+			g.emit("nest-deep", append(append([]byte{}, pre...), nestBytes(cyc, d)...))
+		}
+	}
+}
+
+// findRecursion: a path from t to a struct type that contains itself, and that type's cycle.
+func findRecursion(t reflect.Type, path []step, seen map[reflect.Type]bool, depth int) ([]step, []step) {
+	if depth > 12 {
+		return nil, nil
+	}
+	switch t.Kind() {
+	case reflect.Ptr:
+		return findRecursion(t.Elem(), path, seen, depth+1)
+	case reflect.Slice:
+		if t.Elem().Kind() == reflect.Uint8 {
+			return nil, nil
+		}
+		return findRecursion(t.Elem(), append(append([]step{}, path...), step{kind: 'a'}), seen, depth+1)
+	case reflect.Struct:
+		if seen[t] {
+			return nil, nil
+		}
+		seen[t] = true
 		if cyc := findCycle(t, t, nil, map[reflect.Type]bool{}, 0); cyc != nil {
-			for _, d := range []int{1, 5, 40, 100, 260, 2000} {
-				g.emit("nest-cycle", nestBytes(cyc, d))
+			return path, cyc
+		}
+		for i := 0; i < t.NumField(); i++ {
+			f := t.Field(i)
+			if f.PkgPath != "" && !f.Anonymous {
+				continue
+			}
+			tag := f.Tag.Get("codec")
+			if tag == "-" {
+				continue
+			}
+			name := strings.Split(tag, ",")[0]
+			p := path
+			if !(f.Anonymous && name == "") {
+				if name == "" {
+					name = f.Name
+				}
+				p = append(append([]step{}, path...), step{key: name, kind: 'f'})
+			}
+			if pre, cyc := findRecursion(f.Type, p, seen, depth+1); cyc != nil {
+				return pre, cyc
 			}
 		}
 	}
+	return nil, nil
 }
 
 func repeat(b byte, n int) []byte {
